@@ -1,0 +1,12 @@
+//go:build verif
+
+package master
+
+import "github.com/lindb/lindb/coordinator/discovery"
+
+// VerifProcessEvent feeds one discovery event into the master state manager on the caller's
+// goroutine (the production path is EmitEvent -> channel -> consumeEvent -> processEvent).
+// Verification seam only: compiled with -tags verif, no behaviour change when unused.
+func VerifProcessEvent(sm StateManager, e *discovery.Event) {
+	sm.(*stateManager).processEvent(e)
+}
